@@ -178,3 +178,37 @@ func TestStreaming(t *testing.T) {
 		t.Fatalf("nonce %x", n)
 	}
 }
+
+func TestGen(t *testing.T) {
+	g := NewGen(7)
+	all, _ := io.ReadAll(chunky{g.Reader(3<<20 + 77), 100003})
+	if len(all) != 3<<20+77 {
+		t.Fatal(len(all))
+	}
+	p := make([]byte, 5000)
+	for _, off := range []int64{0, 1, 4090, 4096, 1<<20 - 3, 2<<20 + 4095} {
+		g.Fill(p, off)
+		if !bytes.Equal(p, all[off:off+5000]) {
+			t.Fatalf("Fill at %d differs from the reader", off)
+		}
+	}
+	// every 64 KiB segment differs
+	seen := map[[32]byte]bool{}
+	for i := 0; i+65536 <= len(all); i += 65536 {
+		seen[sha256.Sum256(all[i:i+65536])] = true
+	}
+	if len(seen) != len(all)/65536 {
+		t.Fatal("segments repeat")
+	}
+	c := g.NewChecker()
+	io.Copy(c, chunky{bytes.NewReader(all), 70001})
+	if c.Mismatch != -1 || c.Total != int64(len(all)) {
+		t.Fatal(c.Mismatch, c.Total)
+	}
+	all[2000000] ^= 8
+	c = g.NewChecker()
+	io.Copy(c, chunky{bytes.NewReader(all), 70001})
+	if c.Mismatch != 2000000 {
+		t.Fatal(c.Mismatch)
+	}
+}
